@@ -77,7 +77,7 @@ def model_specs(p):
                     args.update(write_all=True, arg=1.0, arg2=0.5)
                 else:
                     if any(pp["kind"] == "arg" for pp in p.get("params", [])):
-                        args.update(set_tag=True, arg="?")
+                        args.update(set_tag=True, arg="?")       # "?" = the value of a run that does not sweep `arg`
                     if p.get("outputs"):
                         args.update(write_all=True)     # something to save
             models.append(dict(func=FUNC, name=m["name"], enabled=m.get("enabled", True), arguments=args))
@@ -162,14 +162,15 @@ def build_mode(p, readout):
         from pyxel.exposure import Exposure
         from pyxel.outputs import ExposureOutputs
 
-        return Exposure(readout=readout, outputs=ExposureOutputs(**od) if od else None)
+        return Exposure(readout=readout, outputs=ExposureOutputs(**od) if od else None, pipeline_seed=p.get("seed"))
     if mode in ("obs_seq", "obs_dask"):
         from pyxel.observation import Observation
         from pyxel.outputs import ObservationOutputs
 
         kw = obs_kwargs(p)
         kw["parameters"] = [ParameterValues(**d) for d in kw["parameters"]]
-        return Observation(readout=readout, outputs=ObservationOutputs(**od) if od else None, **kw)
+        return Observation(readout=readout, outputs=ObservationOutputs(**od) if od else None,
+                           pipeline_seed=p.get("seed"), **kw)
     from pyxel.calibration import Algorithm, Calibration
     from pyxel.outputs import CalibrationOutputs
     from pyxel.pipelines.model_function import FitnessFunction
@@ -179,7 +180,7 @@ def build_mode(p, readout):
     kw["algorithm"] = Algorithm(**kw["algorithm"])
     kw["parameters"] = [ParameterValues(key=d["key"], values=d["values"], boundaries=tuple(d["boundaries"]))
                         for d in kw["parameters"]]
-    return Calibration(readout=None, outputs=CalibrationOutputs(**od) if od else None, **kw)
+    return Calibration(readout=None, outputs=CalibrationOutputs(**od) if od else None, pipeline_seed=p.get("seed"), **kw)
 
 
 def yaml_text(p, times):
@@ -199,6 +200,8 @@ def yaml_text(p, times):
         name = "calibration"
     if od:
         sec["outputs"] = od
+    if p.get("seed") is not None:
+        sec["pipeline_seed"] = p["seed"]
     doc[name] = sec
     doc["ccd_detector"] = dict(
         geometry=dict(row=3, col=4, total_thickness=40.0, pixel_vert_size=10.0, pixel_horz_size=10.0),
